@@ -37,6 +37,29 @@ theorem gather_length_le (bits : Nat) : ∀ (vs fb : List Nat), (gather bits vs 
     simp only [gather]
     split <;> simp <;> omega
 
+theorem leavesOkList_u64 (v : Tree → Bool) : ∀ (n : Nat) (xs : List Tree),
+    leavesOkList v (List.replicate n .u64) xs = true
+  | 0, xs => by simp [leavesOkList]
+  | n + 1, [] => by simp [List.replicate_succ, leavesOkList]
+  | n + 1, x :: xs => by
+    simp only [List.replicate_succ, leavesOkList, Bool.and_eq_true]
+    exact ⟨by cases x <;> simp [leavesOk], leavesOkList_u64 v n xs⟩
+
+theorem leavesOkAll_u64 (v : Tree → Bool) : ∀ (xs : List Tree), leavesOkAll v .u64 xs = true
+  | [] => by simp [leavesOkAll]
+  | x :: xs => by
+    simp only [leavesOkAll, Bool.and_eq_true]
+    exact ⟨by cases x <;> simp [leavesOk], leavesOkAll_u64 v xs⟩
+
+/-- the two value layouts of `Policies` contain no further hand-written leaves -/
+theorem leavesOk_values (v : Tree → Bool) (t : Tree) :
+    leavesOk v (.tuple (List.replicate 4 .u64)) t = true ∧ leavesOk v (.seq .u64) t = true := by
+  constructor
+  · cases t <;> simp only [leavesOk]
+    exact leavesOkList_u64 v 4 _
+  · cases t <;> simp only [leavesOk]
+    exact leavesOkAll_u64 v _
+
 theorem isLegacy_eq_selLegacy (mask bits : Nat) : isLegacy mask bits = selLegacy allMask mask bits := rfl
 
 end FuelVerif.PoliciesSerde
